@@ -581,6 +581,12 @@ def _pat(it, pattern):
     from .strings import XStr, Undetermined
     if isinstance(pattern, XStr):
         pattern = pattern.simplify()
+    if isinstance(pattern, XStr) and pattern.alts is not None:
+        # a pattern built from a value with finitely many spellings: the path condition may
+        # leave exactly one of them
+        live = [t for g, t in pattern.alts if g is True or it.ctx.feasible(V.BT(g))]
+        if len(live) == 1:
+            pattern = live[0]
     if not isinstance(pattern, str):
         raise Undetermined('regular expression built from an unknown string')
     return pattern
